@@ -845,6 +845,7 @@ func (fc *fnCtx) prove(goal Ineq, at *ssa.BasicBlock, extra *factSet, sigma map[
 	}
 	st.fs.atoms = append(st.fs.atoms, cf.atoms...)
 	st.fs.neqs = append(st.fs.neqs, cf.neqs...)
+	st.guardedFacts()
 	st.domCalls(at)
 	return st.solve(at, depth)
 }
@@ -1350,6 +1351,10 @@ func (e *BE) verifyFunc(fn *ssa.Function) []Oblig {
 						continue
 					}
 					if !pp.ok {
+						if _, _, isParam := ptrParamOf(x.X, 0); isParam && e.ptrReqs(fn) != nil {
+							obs = append(obs, Oblig{Kind: "unsafe-load", At: x, Desc: "load through a pointer parameter at a constant offset: the readable bytes are a precondition proved at every call site (bounds8.go)", OK: true})
+							continue
+						}
 						obs = append(obs, Oblig{Kind: "unsafe-load", At: x, Desc: "unsafe pointer load", OK: false, Why: "pointer provenance unknown"})
 						continue
 					}
@@ -1386,6 +1391,38 @@ func (e *BE) verifyFunc(fn *ssa.Function) []Oblig {
 						goals = append(goals, p(env))
 					}
 					prove("pre", x, "precondition of "+fnKey(callee), goals...)
+				}
+				// pointer preconditions (bounds8.go): k bytes readable at the pointer handed to the helper
+				if reqs := e.ptrReqs(callee); len(reqs) > 0 {
+					for idx := 0; idx < len(x.Call.Args); idx++ {
+						k, need := reqs[idx]
+						if !need {
+							continue
+						}
+						pp := e.ptrOf(x.Call.Args[idx], 0)
+						if !pp.ok {
+							obs = append(obs, Oblig{Kind: "unsafe-load", At: x, Desc: fmt.Sprintf("%d bytes readable at the pointer handed to %s", k, callee.Name()), OK: false, Why: "pointer provenance unknown"})
+							continue
+						}
+						prove("unsafe-load", x, fmt.Sprintf("%d bytes readable at %s+%s handed to %s", k, pp.base.Name(), pp.off.String(e.name), callee.Name()),
+							geq(pp.off, linConst(0)), leq(pp.off.addK(k), e.lenOf(pp.base, 'l')))
+					}
+				}
+				// guarded preconditions (bounds7.go): proved under the assumption that the guard argument is nil
+				if gps := e.guardedFor(callee); len(gps) > 0 {
+					ok, why := true, ""
+					for _, gp := range gps {
+						goal, extra, needed, good := e.guardedGoal(gp, x)
+						if !needed {
+							continue
+						}
+						budget := 600
+						if !good || !fc.prove(goal, x.Block(), extra, nil, 6, &budget) {
+							ok, why = false, "cannot prove "+gp.desc
+							break
+						}
+					}
+					obs = append(obs, Oblig{Kind: "pre", At: x, Desc: "guarded precondition of " + fnKey(callee), OK: ok, Why: why})
 				}
 				for _, a := range x.Call.Args {
 					if hasInv(a.Type()) {
